@@ -39,20 +39,28 @@ RULE = ("scenario = fit on a training series with integer index (RangeIndex or I
         "gapped stretch, label-based window). "
         "non-trivial = the scenario ran (no exception); distinct = distinct canonical JSON case")
 TRUSTED = [
-    "translator/series_c13.py (Python ast -> Gallina, fail-closed): _get_duration's integer branch, "
-    "the whole _align_seasonal body (the per-time-point phase expression, that the comprehension "
-    "ranges over every time point of the PASSED series' index, the positional lookup in "
-    "np.asarray(self.seasonal_)), the operator per model of _transform/_inverse_transform, "
-    "Deseasonalizer.transform/inverse_transform/update/_set_y_index, Detrender.transform/"
-    "inverse_transform and BaseTransformer.fit_transform are regenerated on every run and proved "
-    "equal to the model (Bridge.v); it also checks that Deseasonalizer.fit (and the conditional "
-    "variant) sets the reference index from the passed series and keeps "
-    "seasonal_decompose(...).seasonal.iloc[:sp], that no in-scope class overrides fit_transform and "
-    "that ConditionalDeseasonalizer only redefines __init__/_check_condition/fit; that transform / "
-    "inverse_transform of the invertible transformers (and the own methods they call) never write "
-    "an attribute of self (Detrender.update's body is not pinned: the theorems hold for any "
-    "forecaster update, refitting or not); the earlier "
-    "np.resize(np.roll(...)) form of _align_seasonal is NOT understood (fails closed)",
+    "translator/series_c13.py + translator/symex_c13.py (fail-closed): the anchored methods are "
+    "EVALUATED symbolically (data flow: locals substituted, private helpers of the same file "
+    "inlined with argument binding, guard clauses == if/else, conditional expressions, list-building "
+    "loops == comprehensions, negations normalised, conditionals lifted, dict dispatch on the two "
+    "model literals, raising branches = invalid input dropped, check_series/check_sp/"
+    "check_is_fitted = identity on valid input) into the term they return plus the attribute "
+    "writes they perform, and Gen.v is generated from those terms: _get_duration under 'y given, x "
+    "not date-like' (x - y); Deseasonalizer.transform/inverse_transform = Z <op per model> "
+    "np.asarray(seasonal_)[phases], phases = the translated integer expression for every time "
+    "point of the PASSED series' index; which attributes Deseasonalizer.update writes; "
+    "Detrender.transform/inverse_transform = Z <op> forecaster_.predict(ForecastingHorizon("
+    "Z.index, is_relative=False), X); BaseTransformer.fit_transform; all proved equal to the model "
+    "(Bridge.v).  Checked on the evaluated terms (not on source text): fit writes _y_index = "
+    "Z.index and seasonal_ = seasonal_decompose(Z, model, period=sp, filt=None, two_sided=True, "
+    "extrapolate_trend=0).seasonal.iloc[:sp] (conditional variant: that when the test says "
+    "seasonal, np.zeros(sp)/np.ones(sp) per model otherwise), ConditionalDeseasonalizer's "
+    "transform/inverse_transform/update evaluate to the same terms as the base class's, transform/"
+    "inverse_transform write no attribute of self (also an AST walk over BoxCox, Log, adaptor, "
+    "OptionalPassthrough and the own methods they call; Detrender.update's body is not pinned: the "
+    "theorems hold for any forecaster update), no in-scope class overrides fit_transform.  The "
+    "evaluator is trusted to be a sound partial evaluator of the subset it accepts (anything "
+    "outside raises); the earlier np.resize(np.roll(...)) alignment is not understood",
     "modelled numpy/pandas semantics: ndarray[int array] = positional lookup (phases are in "
     "0..sp-1, so numpy's negative-index wrap-around never applies), Python % = floor modulus, "
     "Series (op) ndarray positional keeping the Series index, Series - Series positional when both "
